@@ -537,7 +537,7 @@ impl DiskCache {
             ls(cache_root.node@) is Some ==> keys_distinct(ls(cache_root.node@)->Some_0),
         ensures
             // (b) the counters equal the count and the summed lengths of the tracked entries; arithmetic frame of U-CACHEACCT
-            /*@C13*/ r matches Ok(st) ==> inv(st, capacity),
+            /*@C13,C12*/ r matches Ok(st) ==> inv(st, capacity),
             // (a),(d) unless the scan stopped at 2*capacity, the state tracks exactly what the tree holds: one entry per complete item
             // file, nothing for anything else
             /*@C13,C19,C12*/ r matches Ok(st) ==> st.total_bytes >= 2 * capacity || rep(st.inner@, scan_root(cache_root.node@, capacity)),
@@ -555,8 +555,8 @@ impl DiskCache {
                 prefixes_fresh(l0, l0.len() as int, capacity, e0), l0.len() <= 0x10_0000,
                 vx_it1.ents@ == l0, 0 <= vx_it1.pos@ <= l0.len(),
                 /*@C13,C19,C12*/ rep(state@, scan_prefixes(l0, vx_it1.pos@, capacity, e0)),
-                /*@C13*/ num_items as int == msum(state@, false),
-                /*@C13*/ total_bytes as int == msum(state@, true),
+                /*@C13,C12*/ num_items as int == msum(state@, false),
+                /*@C13,C12*/ total_bytes as int == msum(state@, true),
                 /*@AUX*/ total_bytes < max_num_bytes,
                 /*@AUX*/ num_items <= vx_it1.pos@ * 0x100_0000_0000,
             ensures /*@C13,C19,C12*/ vx_it1.pos@ == l0.len(),    // the whole listing was visited
@@ -576,8 +576,8 @@ impl DiskCache {
                     keys_fresh(l1, l1.len() as int, pname, capacity, m_i), l1.len() <= 0x10_0000, 0 <= i < 0x10_0000, pname == key_prefix_dir_name.bytes@,
                     vx_it2.ents@ == l1, 0 <= vx_it2.pos@ <= l1.len(),
                     /*@C13,C19,C12*/ rep(state@, scan_keys(l1, vx_it2.pos@, pname, capacity, m_i)),
-                    /*@C13*/ num_items as int == msum(state@, false),
-                    /*@C13*/ total_bytes as int == msum(state@, true),
+                    /*@C13,C12*/ num_items as int == msum(state@, false),
+                    /*@C13,C12*/ total_bytes as int == msum(state@, true),
                     /*@AUX*/ total_bytes < max_num_bytes,
                     /*@AUX*/ num_items <= i * 0x100_0000_0000 + vx_it2.pos@ * 0x10_0000,
                 ensures /*@C13,C19,C12*/ vx_it2.pos@ == l1.len(),
@@ -606,8 +606,8 @@ impl DiskCache {
                         key_items(l2, l2.len() as int, capacity).len() > 0 ==> (!h_j.contains_key(key) || h_j[key]@ =~= Seq::<CacheItem>::empty()),
                         vx_it3.ents@ == l2, 0 <= vx_it3.pos@ <= l2.len(), state@ == h_j,
                         /*@C13,C19,C12*/ items@ == key_items(l2, vx_it3.pos@, capacity),
-                        /*@C13*/ num_items as int == msum(h_j, false) + items@.len(),
-                        /*@C13*/ total_bytes as int == msum(h_j, true) + items_bytes(items@),
+                        /*@C13,C12*/ num_items as int == msum(h_j, false) + items@.len(),
+                        /*@C13,C12*/ total_bytes as int == msum(h_j, true) + items_bytes(items@),
                         /*@AUX*/ total_bytes < max_num_bytes,
                         /*@AUX*/ num_items <= i * 0x100_0000_0000 + j * 0x10_0000 + vx_it3.pos@,
                     ensures /*@C13,C19,C12*/ vx_it3.pos@ == l2.len(),
